@@ -6,7 +6,7 @@ use crate::runner::*;
 use crate::setops::*;
 use serde_json::json;
 
-pub const RULE: &str = "cases = ordered pairs (A,B) with B a single alternative (multi-alternative B is generated for the self-inclusion clause only); T exhaustive bound-kind table, M multi-alternative A x single B, S self-inclusion A.allows_all(A) for every generated A, P random prerelease bounds; oracle = true ⇒ every probe within B's hook bounds is within A's (and release satisfaction follows), true ⇒ allows_any, single-alternative A: true ⇔ B.difference(A) is None; non-trivial = the pair has a tie or nested/equal ends (answer could flip with an inclusive/exclusive slip); distinct = distinct operand text pairs";
+pub const RULE: &str = "cases = ordered pairs (A,B) with B a single alternative (multi-alternative B is generated for the self-inclusion clause only); T exhaustive bound-kind table, M multi-alternative A x single B, S self-inclusion A.allows_all(A) for every generated A, L long alternative lists (17..300 alternatives, some 3000) against small partners in both orders on a 256 KiB stack, P random prerelease bounds; oracle = true ⇒ every probe within B's hook bounds is within A's (and release satisfaction follows), true ⇒ allows_any, single-alternative A: true ⇔ B.difference(A) is None; non-trivial = the pair has a tie or nested/equal ends (answer could flip with an inclusive/exclusive slip); distinct = distinct operand text pairs";
 
 pub fn judge_pair(ctx: &mut Ctx, a: &Operand, b: &Operand) {
     ctx.begin(|| format!("C10 allows_all {} , {}", a.text, b.text));
@@ -16,7 +16,7 @@ pub fn judge_pair(ctx: &mut Ctx, a: &Operand, b: &Operand) {
         ctx.skip("multi-alternative B (left out by the statement)");
         return;
     }
-    let (all, any, diff_none) = match guarded(|| (a.range.allows_all(&b.range), a.range.allows_any(&b.range), b.range.difference(&a.range).is_none())) {
+    let (all, any, diff_none) = match guarded(|| (a.range.allows_all(&b.range), a.range.allows_any(&b.range), if a.b.0.len() <= 300 { b.range.difference(&a.range).is_none() } else { false })) {
         Ok(r) => r,
         Err(p) => {
             ctx.violation(&format!("panic/{}/{}", p.site, message_class(&p.message)), w, p.message);
@@ -121,6 +121,26 @@ pub fn run(ctx: &mut Ctx) {
                 if let Some(b) = neighbour_operand(&mut r, &a) {
                     judge_pair(ctx, &a, &b);
                 judge_pair(ctx, &b, &a);
+                }
+            }
+        }
+    }
+    // long alternative lists (17..300, some 3000) against small partners, both orders, run
+    // on a 256 KiB stack: counts around 16/32/64/256 and stack depth following the list length
+    ctx.stratum("L-long-alternative-lists", false);
+    let n = ctx.tier.n(60, 2_000);
+    for i in 0..n {
+        if ctx.take() {
+            let mut r = Rng::for_case(ctx.seed, "C10-L", i);
+            if let Some(a) = long_alt_operand(&mut r, &tiv, true) {
+                if let Some(b) = long_partner(&mut r, &a, &tiv) {
+                    let done = on_small_stack(|| {
+                        judge_pair(ctx, &a, &b);
+                        judge_pair(ctx, &b, &a);
+                    });
+                    if done.is_none() {
+                        ctx.inconclusive("small-stack thread ended without a result");
+                    }
                 }
             }
         }
